@@ -223,6 +223,21 @@ theorem next_prime_minimal_small (lg : Int → Int) (hlg : ∀ m : Int, lg m < 9
     by_contra hcon
     exact hskip q (by exact_mod_cast hnq) (by omega) hq
 
+/-- decided instance, larger: for `n < 32760` minimality holds unconditionally (the result is below 2¹⁶, where `is_prime` is
+decided exact: `is_prime_exact_below_65536`) — `next_prime(n)` IS the smallest prime greater than `n` -/
+theorem next_prime_minimal_below_32760 (lg : Int → Int) (hlg : ∀ m : Int, lg m < 99) (n : Int) (hn : n < 32760) :
+    ∃ r : Nat, nextPrime lg n = .ok (r : Int) ∧ r.Prime ∧ n < r ∧ ∀ q : Nat, q.Prime → n < q → r ≤ q := by
+  by_cases h2 : n < 2
+  · exact ⟨2, (next_prime_no_prime_skipped lg n).1 h2, Nat.prime_two, by omega, fun q hq _ => hq.two_le⟩
+  · obtain ⟨N, rfl⟩ : ∃ N : Nat, n = N := ⟨n.toNat, by omega⟩
+    obtain ⟨r, h1, hlt, hle, hacc, hskip⟩ := nextPrime_spec_bound lg N (by omega)
+    obtain ⟨b, hb, hiff⟩ := NTSmall.isPrime_exact_below_65536 lg r (by omega) (hlg r)
+    rw [hacc] at hb; cases hb
+    have hrp : r.Prime := by simpa using (hiff.mp rfl).2
+    refine ⟨r, h1, hrp, by exact_mod_cast hlt, fun q hq hnq => ?_⟩
+    by_contra hcon
+    exact hskip q (by exact_mod_cast hnq) (by omega) hq
+
 example : nextPrime (fun n => n.toNat.log2) 1229 = .ok 1231 ∧ nextPrime (fun n => n.toNat.log2) (-5) = .ok 2 ∧
     nextPrime (fun n => n.toNat.log2) 2046 = .ok 2053 := by decide +kernel
 
@@ -261,6 +276,17 @@ theorem factorization_all_prime_small (lg : Int → Int) (hlg : ∀ m : Int, lg 
   obtain ⟨fs, h1, h2, h3, h4, _, h6⟩ := NTProofs.factorization_all_prime_bounded lg n hn (by
     intro m hm hmn hp
     obtain ⟨b, hb, hiff⟩ := NTSmall.isPrime_exact_below_4096 lg m (by omega) (hlg m)
+    rw [hp] at hb; cases hb
+    exact (hiff.mp rfl).2)
+  exact ⟨fs, h1, h2, h3, h4, h6⟩
+
+/-- decided instance, larger: below 2¹⁶ the factorisation is THE prime factorisation, unconditionally -/
+theorem factorization_all_prime_below_65536 (lg : Int → Int) (hlg : ∀ m : Int, lg m < 99) (n : Int) (hn : 2 ≤ n) (hn' : n < 65536) :
+    ∃ fs, factorization lg n = .ok fs ∧ (fs.map (fun f => f.1 ^ f.2.toNat)).prod = n ∧
+      (fs.map Prod.fst).Pairwise (· < ·) ∧ (∀ f ∈ fs, 1 ≤ f.2) ∧ ∀ f ∈ fs, f.1.toNat.Prime := by
+  obtain ⟨fs, h1, h2, h3, h4, _, h6⟩ := NTProofs.factorization_all_prime_bounded lg n hn (by
+    intro m hm hmn hp
+    obtain ⟨b, hb, hiff⟩ := NTSmall.isPrime_exact_below_65536 lg m (by omega) (hlg m)
     rw [hp] at hb; cases hb
     exact (hiff.mp rfl).2)
   exact ⟨fs, h1, h2, h3, h4, h6⟩
